@@ -80,11 +80,11 @@ fn run_many(hists: &[hist::History], threads: usize, cfg: &exec::RunCfg, out_pre
                 Ok(false) => continue,
                 Err(_) => {
                     let now = *exec::PROGRESS.lock().unwrap();
-                    if now != last || !now.2 {
+                    if now != last {
                         last = now;
                         continue;
                     }
-                    // no progress for hang_secs inside one build
+                    // no progress for hang_secs inside one operation (build, search or observation)
                     let mut ev = events.lock().unwrap().clone();
                     // the events of the hung history are still private to the worker: start it over in the trace
                     let hno = now.0;
